@@ -1,6 +1,7 @@
 package main
 
 import (
+	"net/url"
 	"strings"
 	"sync/atomic"
 	"encoding/json"
@@ -92,6 +93,7 @@ type smpRig struct {
 	mu    sync.Mutex
 	hooks []smpHookCall
 	gate  *Gate
+	viaLogger bool
 }
 
 type smpHookCall struct {
@@ -122,7 +124,19 @@ func newSmpRig(p smpParams, g *Gate) *smpRig {
 	return r
 }
 
+// smpClock is the logger's clock: the sampler judges entries by the timestamps the front end gives them.
+type smpClock struct{ t time.Time }
+
+func (c smpClock) Now() time.Time                       { return c.t }
+func (c smpClock) NewTicker(d time.Duration) *time.Ticker { return time.NewTicker(d) }
+
 func (r *smpRig) log(e smpEnt, msgs map[string]string, tag string) {
+	if r.viaLogger {
+		// through the zap.Logger front end (which stamps the entry from its clock before the core sees it)
+		lg := zap.New(r.cores[e.Core], zap.WithClock(smpClock{time.Unix(0, smpBase+int64(e.T)*smpUnit)})).Named(tag)
+		lg.Log(smpLevels[e.Lvl], msgs[e.Msg])
+		return
+	}
 	ent := zapcore.Entry{Level: smpLevels[e.Lvl], Message: msgs[e.Msg], Time: time.Unix(0, smpBase+int64(e.T)*smpUnit), LoggerName: tag}
 	if ce := r.cores[e.Core].Check(ent, nil); ce != nil {
 		ce.Write()
@@ -289,6 +303,7 @@ func smpReplaySeq(b smpBeh, p smpParams, msgs map[string]string) (finds []Findin
 	}()
 	zapcore.VerifHook = nil
 	rig := newSmpRig(p, nil)
+	rig.viaLogger = len(b.H)%2 == 1
 	dec, fwd := smpExpect(b)
 	for _, a := range b.H {
 		if a.A != "Start" {
@@ -638,6 +653,66 @@ func smpStress(c *Ctx, msgs map[string]string) {
 		c.Add("traces_validated_against_impl", 1)
 	}
 	c.Set("open_window_contention_runs", int64(heavy))
+	smpConfigFrontEnd(c)
+}
+
+// smpMemSink is registered once under the scheme "c11mem": Config.Build then writes into it.
+type smpMemSink struct {
+	mu sync.Mutex
+	n  int
+}
+
+func (s *smpMemSink) Write(p []byte) (int, error) { s.mu.Lock(); s.n++; s.mu.Unlock(); return len(p), nil }
+func (s *smpMemSink) Sync() error                 { return nil }
+func (s *smpMemSink) Close() error                { return nil }
+
+var smpMem = &smpMemSink{}
+var smpMemOnce sync.Once
+
+// smpConfigFrontEnd: the sampling parameters given through zap.Config mean the same as on the core.
+func smpConfigFrontEnd(c *Ctx) {
+	smpMemOnce.Do(func() {
+		zap.RegisterSink("c11mem", func(*url.URL) (zap.Sink, error) { return smpMem, nil })
+	})
+	for _, p := range []smpParams{{N: 1, M: 0}, {N: 3, M: 0}, {N: 2, M: 2}, {N: 1, M: 3}, {N: 0, M: 1}} {
+		var hs, hd int64
+		cfg := zap.NewProductionConfig()
+		cfg.OutputPaths = []string{"c11mem://x"}
+		cfg.ErrorOutputPaths = []string{"c11mem://x"}
+		cfg.Sampling = &zap.SamplingConfig{Initial: p.N, Thereafter: p.M, Hook: func(e zapcore.Entry, d zapcore.SamplingDecision) {
+			if d == zapcore.LogSampled {
+				atomic.AddInt64(&hs, 1)
+			} else {
+				atomic.AddInt64(&hd, 1)
+			}
+		}}
+		lg, err := cfg.Build(zap.WithClock(smpClock{time.Unix(0, smpBase)}))
+		if err != nil {
+			c.Inconclusive("Config.Build: %v", err)
+			return
+		}
+		smpMem.mu.Lock()
+		smpMem.n = 0
+		smpMem.mu.Unlock()
+		total := 40
+		for i := 0; i < total; i++ {
+			lg.Info("one message")
+		}
+		want := 0
+		for x := 1; x <= total; x++ {
+			if x <= p.N || (p.M > 0 && (x-p.N)%p.M == 0) {
+				want++
+			}
+		}
+		smpMem.mu.Lock()
+		got := smpMem.n
+		smpMem.mu.Unlock()
+		if got != want || int(hs) != want || int(hs+hd) != total {
+			c.Violation("C11/decision", fmt.Sprintf("zap.Config{Sampling{Initial: %d, Thereafter: %d}}: %d entries of one message inside one tick: %d written (hook: %d sampled, %d dropped); first %d then every %dth (none if zero) is %d", p.N, p.M, total, got, hs, hd, p.N, p.M, want),
+				map[string]interface{}{"mode": "config", "N": p.N, "M": p.M})
+		}
+		c.Add("traces_validated_against_impl", 1)
+	}
 }
 
 // smpCountCore accepts everything and only counts the entries written to it.
